@@ -634,3 +634,110 @@ def rule_enc_flags(cx, tier):
                           f"disagree, and the decoder then mis-reads the following bytes", conv.file, line))
         r.sample({"flag": flag, "set_under_tests_of": governing, "ok": ok})
     return r
+
+
+# ---------------------------------------------------------------------------------------------
+# R-VARINT (C01, C05): the continuation flag of a var-int byte never enters the decoded value
+
+def rule_varint(cx, tier):
+    r = RuleResult("R-VARINT", "var-ints are written as 7 value bits plus the continuation flag 0x80 per byte (push_var_u32); the "
+                               "instruction reader therefore masks every byte with 0x7f before it ORs it into the value -- an "
+                               "unmasked byte forces bit 7 (or 14, 21 ..) of every multi-byte value on, so constants with an "
+                               "index in 256..383 (512..639, ..) are read from the wrong slot")
+    from ..facts import loc_macros, loc_line
+    grammar, arms, fn = reader_grammar(cx)
+    du = cx.du(fn)
+    # writer side: push_var_u32 masks with 0x7f and sets 0x80
+    wfn = cx.need_fn(COMP + "push_var_u32")
+    wmask = any(st[0] == "a" and st[2][0] == "bin" and st[2][1] == "BitAnd" and 127 in (op_int(st[2][2]), op_int(st[2][3]))
+                for b in wfn.blocks if not b.cleanup for st in b.stmts)
+    wflag = any(st[0] == "a" and st[2][0] == "bin" and st[2][1] == "BitOr" and 128 in (op_int(st[2][2]), op_int(st[2][3]))
+                for b in wfn.blocks if not b.cleanup for st in b.stmts)
+    require(wmask and wflag, "R-VARINT: push_var_u32 no longer writes 7 value bits + 0x80 per byte (encoding changed: re-read "
+                             "the rule)")
+    ors = []
+    for b in fn.blocks:
+        if b.cleanup:
+            continue
+        for st in b.stmts:
+            if st[0] == "a" and st[2][0] == "bin" and st[2][1] == "BitOr" and len(st) > 3 and \
+                    any("get_var_u32" in m for m in loc_macros(st[3])):
+                ors.append((b.idx, st))
+    acc = {st[1][0] for _, st in ors if not st[1][1]}
+
+    def masked(op, depth=0):
+        """the operand is an accumulator, a constant, or bottoms out in `x & 0x7f` (through shifts and casts)"""
+        if op[0] == "k":
+            return True
+        l = op_base(op)
+        for _ in range(10):
+            if l is None:
+                return False
+            if l in acc:
+                return True
+            ds = du.full_defs(l)
+            if len(ds) != 1 or ds[0][2] != "assign":
+                # a mutable local: all its definitions
+                return bool(ds) and all(d[2] == "assign" and _rv_masked(d[3], depth) for d in ds) and depth < 6
+            rv = ds[0][3]
+            if rv[0] == "bin":
+                if rv[1] == "BitAnd" and 127 in (op_int(rv[2]), op_int(rv[3])):
+                    return True
+                if rv[1] in ("Shl", "ShlUnchecked", "BitOr"):
+                    if rv[1] == "BitOr":
+                        return masked(rv[2], depth + 1) and masked(rv[3], depth + 1)
+                    l = op_base(rv[2])
+                    continue
+                return False
+            if rv[0] in ("use", "cast"):
+                o = rv[1] if rv[0] == "use" else rv[2]
+                if o[0] == "k":
+                    return True
+                pl = op_place(o)
+                if pl is not None and pl[1] and [p for p in pl[1] if p != "*"]:
+                    # field `.0` of a checked shift / add result
+                    l = pl[0]
+                    continue
+                l = op_base(o)
+                continue
+            return False
+        return False
+
+    def _rv_masked(rv, depth):
+        if rv[0] == "use":
+            return masked(rv[1], depth + 1)
+        if rv[0] == "cast":
+            return masked(rv[2], depth + 1)
+        if rv[0] == "bin":
+            if rv[1] == "BitAnd" and 127 in (op_int(rv[2]), op_int(rv[3])):
+                return True
+            if rv[1] == "BitOr":
+                return masked(rv[2], depth + 1) and masked(rv[3], depth + 1)
+            if rv[1] in ("Shl", "ShlUnchecked"):
+                return masked(rv[2], depth + 1)
+        return False
+    n = 0
+    for bb, st in ors:
+        for o in (st[2][2], st[2][3]):
+            n += 1
+            r.instances += 1
+            r.nontrivial += 1
+            ok = masked(o)
+            if not ok:
+                r.add(Finding("R-VARINT", fn.qual, "unmasked-byte",
+                              "a byte is ORed into a var-int value without being masked with 0x7f: its continuation flag "
+                              "(0x80) becomes bit 7 of the decoded value", fn.file, loc_line(st[3])))
+    # initial values of the accumulators
+    for l in acc:
+        for d in du.full_defs(l):
+            if d[2] == "assign" and not (d[3][0] == "bin" and d[3][1] == "BitOr"):
+                n += 1
+                r.instances += 1
+                r.nontrivial += 1
+                if not _rv_masked(d[3], 0) and not (d[3][0] == "use" and d[3][1][0] == "k"):
+                    r.add(Finding("R-VARINT", fn.qual, "unmasked-first-byte",
+                                  "the initial value of a var-int accumulator is a byte that was not masked with 0x7f",
+                                  fn.file, loc_line(d[4]) if d[4] is not None else fn.line))
+    r.analysed = {"or_sites_in_var_int_decoders": len(ors), "operands_checked": n}
+    r.floor("BitOr sites in the reader's var-int decoders", len(ors), 2)
+    return r
